@@ -130,25 +130,40 @@ def random_rxo(r, n):
     return cs
 
 
-def all_kinds(r):
-    """every combination of the kind-valued fields of both sides (589 824 pairs); the three
-    duration fields rotate through the boundary durations"""
-    cs = []
-    i = 0
-    n5 = len(DURS5)
-    for d1, d2 in itertools.product(range(4), repeat=2):
-        for s1, c1, o1, s2, c2, o2 in itertools.product(range(2), repeat=6):
-            for k1, k2 in itertools.product(range(3), repeat=2):
-                for r1, r2, x1, x2, w1, w2 in itertools.product(range(2), repeat=6):
-                    i += 1
-                    a = DURS5[i % n5]
-                    b = DURS5[(i // n5) % n5]
-                    c = DURS5[(i // (n5 * n5)) % n5]
-                    d = DURS5[(i // (n5 ** 3)) % n5]
-                    off = (d1, s1, c1, o1, a, b, k1, c, r1, x1, w1, [])
-                    req = (d2, s2, c2, o2, b, a, k2, d, r2, x2, w2, [])
-                    cs.append(mk(off, req, tag="all-kinds"))
-    return cs
+N_KINDS = 4 * 4 * 2 ** 6 * 3 * 3 * 2 ** 6   # 589 824
+
+
+def kind_case(n):
+    """the n-th combination of the kind-valued fields of both sides (mixed radix, most
+    significant first: d1:4 d2:4 s1 c1 o1 s2 c2 o2 :2 k1:3 k2:3 r1 r2 x1 x2 w1 w2 :2); the duration
+    fields rotate through the five boundary durations.  Same function as `enum_cfg` in MatchCorr.v"""
+    i = n + 1
+    a, b = DURS5[i % 5], DURS5[(i // 5) % 5]
+    c, d = DURS5[(i // 25) % 5], DURS5[(i // 125) % 5]
+    m = n
+    w2 = m % 2; m //= 2
+    w1 = m % 2; m //= 2
+    x2 = m % 2; m //= 2
+    x1 = m % 2; m //= 2
+    r2 = m % 2; m //= 2
+    r1 = m % 2; m //= 2
+    k2 = m % 3; m //= 3
+    k1 = m % 3; m //= 3
+    o2 = m % 2; m //= 2
+    c2 = m % 2; m //= 2
+    s2 = m % 2; m //= 2
+    o1 = m % 2; m //= 2
+    c1 = m % 2; m //= 2
+    s1 = m % 2; m //= 2
+    d2 = m % 4
+    d1 = (m // 4) % 4
+    off = (d1, s1, c1, o1, a, b, k1, c, r1, x1, w1, [])
+    req = (d2, s2, c2, o2, b, a, k2, d, r2, x2, w2, [])
+    return (1, 1, off, req, [], [], "all-kinds", n)
+
+
+def all_kinds(lo=0, hi=N_KINDS):
+    return [kind_case(n) for n in range(lo, hi)]
 
 
 # ---- partitions
@@ -303,23 +318,22 @@ def gen(r, tier):
         cases += random_rxo(r, 12000) + partition_cases(r, 12000) + gating_cases(r, 3000)
     else:
         # the exhaustive product of all kinds (589 824 pairs) runs in batches, see `extra`
-        cases += random_rxo(r, 60000) + partition_cases(r, 50000) + gating_cases(r, 10000)
+        cases += random_rxo(r, 16000) + partition_cases(r, 14000) + gating_cases(r, 4000)
     return cases
 
 
 def extra(ctx, binary):
-    """thorough tier: every combination of the kind-valued fields of both sides, in batches
-    small enough for one Coq list literal per shard"""
+    """thorough tier: every combination of the kind-valued fields of both sides (589 824
+    configurations), each written as ONE number for Coq (`EZ`, see MatchCorr.v)"""
     if ctx.tier != "thorough":
         return
     from vlib import core
-    cases = all_kinds(ctx.rng)
-    step = 100000
+    step = 150000
     total_bad = 0
-    for k in range(0, len(cases), step):
-        chunk = cases[k:k + step]
+    for lo in range(0, N_KINDS, step):
+        chunk = all_kinds(lo, min(lo + step, N_KINDS))
         res, lines, outs = core.correspond(ctx, sys.modules[__name__], binary, chunk,
-                                           label="kinds%d" % (k // step))
+                                           label="kinds%d" % (lo // step))
         for i in res["oracle_bad"][:3]:
             ctx.violations.append(("oracle", "property oracle rejects implementation behaviour on case: %s -> %s"
                                    % (lines[i], outs[i]), {"case": lines[i], "harness": HARNESS, "impl_output": outs[i]}))
@@ -328,8 +342,8 @@ def extra(ctx, binary):
             total_bad += len(res["model_bad"])
             ctx.broken.append("correspondence C15 (all kinds): implementation differs from model on %d case(s), e.g. %s -> %s"
                               % (len(res["model_bad"]), lines[i0], outs[i0]))
-    ctx.cov["evaluations"] = ctx.cov.get("evaluations", 0) + len(cases)
-    ctx.cov["exhaustive_kind_combinations"] = len(cases)
+    ctx.cov["evaluations"] = ctx.cov.get("evaluations", 0) + N_KINDS
+    ctx.cov["exhaustive_kind_combinations"] = N_KINDS
     ctx.cov["model_disagreements"] = ctx.cov.get("model_disagreements", 0) + total_bad
 
 
@@ -453,10 +467,40 @@ def split_out(out):
     return w.strip(), r.strip()
 
 
+RXO_IDS = [2, 3, 4, 5, 8, 11, 12, 6, 23]   # rxo_policy_ids of CompatModel.v, in that order
+
+
+def obs_code(v):
+    """one observation as a number (decoded by obs_of_code in MatchCorr.v); None if it does not fit"""
+    p = v.split()
+    if p == ["M"]:
+        return 0
+    if p == ["N"]:
+        return 1
+    if p == ["T"]:
+        return 2
+    if p and p[0].startswith("X"):
+        return 3
+    if p and p[0] == "I" and 3 <= len(p) <= 12:
+        try:
+            idx = [RXO_IDS.index(int(x)) + 1 for x in p[1:]]
+        except ValueError:
+            return None
+        seq = 0
+        for k, d in enumerate(idx[1:]):
+            seq += d << (4 * k)
+        return 4 + 8 * (idx[0] + 16 * seq)
+    return None
+
+
 def case_term(c, out):
     wr = split_out(out)
     if wr is None:
         return None  # PANIC / ABORT / HANG: the real code crashed
+    if len(c) > 7 and c[6] == "all-kinds":
+        cw, cr = obs_code(wr[0]), obs_code(wr[1])
+        if cw is not None and cr is not None and cw < 2 ** 48:
+            return "EZ %d" % (c[7] + (1 << 20) * (cw + (1 << 48) * cr))
     w, r = cverdict(wr[0]), cverdict(wr[1])
     if w is None or r is None:
         return None
